@@ -266,6 +266,10 @@ func (ms *modSets) callEffects(fn *ssa.Function, in ssa.Instruction, c *ssa.Call
 					if t.Field == nil {
 						t.Field = e.Tgt.Field
 					}
+					// what the callee reaches through a reference stays behind that reference
+					if e.Tgt.Deref {
+						t.Deref = true
+					}
 					add([]target{t}, e.What, in, fnShort(callee)+">"+e.Via)
 				}
 			case e.Tgt.Root == rootGlobal || e.Tgt.Root == rootUnknown:
